@@ -444,7 +444,13 @@ class FelicaLiteTag(object):
             self.mem[bn] = new
             if bn == CK:
                 self._sk = None
-        if with_mac_a:
+        # wcnt_mode: which writes advance the write counter.  'mac': only
+        # writes with MAC_A; 'nvm': also plain writes to non-volatile blocks;
+        # 'all': every accepted write (RC and STATE too).  A reader must work
+        # with all three (it reads WCNT before it computes MAC_A).
+        mode = getattr(self, 'wcnt_mode', 'mac')
+        if self.lite_s and (with_mac_a or mode == 'all' or (
+                mode == 'nvm' and bn not in (RC, STATE))):
             c = int.from_bytes(self.mem[WCNT][0:3], 'little') + 1
             self.mem[WCNT][0:3] = (c & 0xFFFFFF).to_bytes(3, 'little')
         self.writes.append((bn, bytes(new)))
